@@ -195,7 +195,9 @@ def _impl(args):
         if want_cli:
             d = wnenv.workdir()
             f = d / 'v.xml'
-            f.write_text(docs.to_xml(docs.resource([lx], v)), encoding='utf-8')
+            # the file ends with a lexicon nothing can be said about: the exit status speaks for the whole file
+            trailer = {'id': 'v-okay', 'version': '1', 'label': 'nothing to report', 'language': 'en', 'email': 'a@b.c', 'license': 'L', 'meta': None}
+            f.write_text(docs.to_xml(docs.resource([lx, trailer], v)), encoding='utf-8')
             p = subprocess.run([sys.executable, '-m', 'wn', '--dir', str(d / 'data'), 'validate', str(f)], cwd=wnenv.REPO,
                                stdout=subprocess.PIPE, stderr=subprocess.PIPE, text=True, timeout=120)
             res['cli'] = {'rc': p.returncode, 'out': p.stdout[-300:], 'err': p.stderr[-300:]}
